@@ -115,5 +115,50 @@ pub proof fn lemma_serial_roundtrip(s: int, dc: int, y: int, m: int, d: int)
         dc - 693594 == s,                       // convert_to_serial_number gives s back
 {}
 
+// ---- WEEKDAY ----
+#[verifier::external_body] #[derive(Clone, Copy)] pub struct Weekday { _o: u8 }
+/// 0 = Monday .. 6 = Sunday
+pub uninterp spec fn dow(w: Weekday) -> int;
+impl NaiveDate {
+    // A-chrono: day 1 of the common era (0001-01-01) is a Monday
+    #[verifier::external_body]
+    pub fn weekday(&self) -> (w: Weekday)
+        ensures dow(w) == (day_count(*self) + 6) % 7, 0 <= dow(w) <= 6
+    { unimplemented!() }
+}
+impl Weekday {
+    #[verifier::external_body]
+    pub fn num_days_from_sunday(&self) -> (r: u32) ensures r == (dow(*self) + 1) % 7 { unimplemented!() }
+    #[verifier::external_body]
+    pub fn number_from_monday(&self) -> (r: u32) ensures r == dow(*self) + 1 { unimplemented!() }
+    #[verifier::external_body]
+    pub fn num_days_from_monday(&self) -> (r: u32) ensures r == dow(*self) { unimplemented!() }
+    #[verifier::external_body]
+    pub fn number_from_sunday(&self) -> (r: u32) ensures r == (dow(*self) + 1) % 7 + 1 { unimplemented!() }
+}
+//@type base/src/expressions/token.rs Error
+/// the spreadsheet definition of WEEKDAY(date, return_type) for a day whose Monday-based index is d (0 = Monday)
+pub open spec fn weekday_spec(d: int, return_type: int) -> int {
+    if return_type == 1 { (d + 1) % 7 + 1 }            // Sunday = 1 .. Saturday = 7
+    else if return_type == 2 { d + 1 }                  // Monday = 1 .. Sunday = 7
+    else if return_type == 3 { d }                      // Monday = 0 .. Sunday = 6
+    else { (d + 7 - (return_type - 11)) % 7 + 1 }       // 11..17: week starts on Monday(11) .. Sunday(17), first day = 1
+}
+pub fn weekday_num(date: NaiveDate, return_type: i32) -> (r: Result<u32, Error>)
+    ensures
+        r.is_ok() <==> (1 <= return_type <= 3 || 11 <= return_type <= 17),
+        r matches Ok(n) ==> n == weekday_spec((day_count(date) + 6) % 7, return_type as int),
+        // ... hence every serial's weekday follows from the serial alone: Monday-based index (s + 5) % 7
+        r matches Ok(n) ==> 0 <= n <= 7,
+{
+//@fragment base/src/functions/date_and_time.rs weekday_number `let weekday = date.weekday();` ..< `Ok(num as f64)`
+//@end
+    Ok(num)
+}
+pub proof fn lemma_weekday_of_serial(s: int)
+    requires 1 <= s <= 2958465
+    ensures (s + 693594 + 6) % 7 == (s + 5) % 7
+{}
+
 } // verus!
 fn main() {}
